@@ -592,7 +592,7 @@ def run(m, tier):
     results.append(r13_printer_agreement(m))
     results.append(r14_isinstance_overrides(m))
     from rules import two_roundtrip
-    results.append(two_roundtrip.standards_rule(m, "C17.R15", floor=230))
+    results.append(two_roundtrip.standards_rule(m, "C17.R15", floor=230, build_depth=2))
     results.append(r16_list_elements(m))
     expl = ("Decides grammar inclusion at the level at which the 2008 grammar is assembled: every rule and alternative of the linked "
             "2003 registry is still reachable, in the same relative order, in the linked 2008 registry (550 rules); identity tests of "
